@@ -12,13 +12,22 @@ SPEC = {
          'sinks': {'C05_obs': 'obs_judge'}, 'n': {'quick': 900, 'thorough': 30000}},
         {'pkg': 'commit/merkleroot', 'pkgname': 'merkleroot', 'fakes': True, 'src': _MR, 'test': 'TestVerif_C05_build',
          'sinks': {'C05_build': 'build_judge'}, 'n': {'quick': 700, 'thorough': 30000}},
+        {'pkg': 'commit/merkleroot', 'pkgname': 'merkleroot', 'fakes': True, 'src': _MR, 'test': 'TestVerif_C05_chain',
+         'sinks': {'C05_chain': 'chain_judge'}, 'n': {'quick': 200, 'thorough': 4000}},
         {'pkg': 'commit', 'src': 'harness/commit/c05_test.go', 'test': 'TestVerif_C05_report', 'fakes': True,
          'sinks': {'C05_report': 'rep5_judge'}, 'n': {'quick': 400, 'thorough': 10000}},
         {'pkg': 'commit', 'src': 'harness/commit/c05_test.go', 'test': 'TestVerif_C05_gate', 'fakes': True,
          'sinks': {'C05_gate': 'gate5_judge'}, 'n': {'quick': 400, 'thorough': 10000}},
     ],
     'known': {},
-    'rule': 'obs: Processor.Observation with RMN enabled (5/6) or not, previous outcome type over building / every other state / '
+    'rule': 'chain: histories of 3..10 rounds of the processor chain, processors built with the real NewProcessor (real observerImpl over a '
+            'scripted honest reader, real ccipChainSupport over a fake home chain, 4 oracles, F=1), RMN on (4/5) or off: leader = '
+            'Processor.Query with a scripted rmn.Controller (signatures for the true roots / for other roots / rmn.ErrTimeout / error) or a '
+            'Byzantine query from {retry flag} x {bundle absent, matching the true roots with the crypto oracle accepting (honest) or rejecting '
+            '(forged), other roots}; then Processor.Observation of all four oracles (returned value kept also next to an error), '
+            'ValidateObservation of each, Processor.Outcome on the valid ones when they are a quorum, outcome fed back through JSON; the world '
+            '(pending messages, off-ramp cursor after a transmission) moves between rounds; one judged case per round; '
+            'obs: Processor.Observation with RMN enabled (5/6) or not, previous outcome type over building / every other state / '
             'out-of-range, previous RMN config empty or not, controller already initialised / initialised now / failing, destination '
             'known to chain-selectors or not, off-ramp address lookup failing or not, query = no bundle or a bundle around two roots '
             '(exact, one component changed, subset, superset, duplicate, none, malformed: nil / short signature, nil lane, nil lane '
@@ -28,7 +37,7 @@ SPEC = {
             'subset / superset / duplicate / none / malformed; report: Plugin.Reports on outcomes with type x roots 0..3 x signatures '
             '{0,F,F+1,F+2} x F 0..3 x gas prices, and what it emits handed to ShouldAcceptAttestedReport; gate: '
             'ShouldAcceptAttestedReport on hand-made reports with RemoteF in {0..3, 2^63-2, 2^63-1, 2^63, 2^64-2, 2^64-1}. '
-            'non-trivial = obs: RMN enabled and building state; build: >= 1 agreed root and a bundle; report / gate: >= 1 root and '
+            'non-trivial = chain and obs: RMN enabled and building state; build: >= 1 agreed root and a bundle; report / gate: >= 1 root and '
             'RMN enabled; distinct by full input',
     'trusted': ['RMNCrypto.VerifyReportSignatures is an oracle (a predicate over signatures, report and signer addresses); the '
                 'theorems hold for every such predicate; the harness uses a recording fake and compares the arguments of the call',
@@ -39,19 +48,19 @@ SPEC = {
                 'refuses produces no outcome (used to read C05_reported_roots_verified as the end-to-end statement)'],
     'assumptions': ['every previous outcome was written by the state machine itself (sigs_imply_roots is an invariant, it holds of the '
                     'initial empty outcome)'],
-    'level_text': 'Proof: 15 Coq theorems. Observation in a building round (RMN enabled, no retry) succeeds only with a well-formed '
+    'level_text': 'Proof: 19 Coq theorems. Observation in a building round (RMN enabled, no retry) succeeds only with a well-formed '
                   'bundle whose signatures the crypto oracle accepted for exactly the report built from the previous outcome\'s RMN '
                   'config and the bundle\'s lane updates; a bundle in any other round is refused; the only unverified observations are '
                   'RMN off / no bundle outside building / announced retry; with a bundle the reported roots are exactly the agreed '
                   'roots equal to a signed lane update on chain, interval, address and root (iff), sorted, one per chain; composition '
                   'of the two; signatures never without roots over any run and in the emitted report (after fixes/F11.patch); accepted '
-                  'with roots only with F+1 signatures for every F (after fixes/F28.patch); refutations of the unrepaired functions '
-                  '(F10 panic, F11, F28). Correspondence: Observation with a recording crypto fake, Outcome, Reports and '
+                  'with roots only with F+1 signatures for every F (after fixes/F28.patch); an announced retry is inert in Observation, ValidateObservation and Outcome together; the value returned next to a refused observation is empty; roots are observed only in a building round for the previous outcome\'s ranges; the honest leader\'s query comes from the controller asked for exactly those ranges; refutations of the unrepaired functions '
+                  '(F10 panic, F11, F28). Correspondence: the chain Query -> Observation -> ValidateObservation -> Outcome over histories, Observation with a recording crypto fake, Outcome, Reports and '
                   'ShouldAcceptAttestedReport run against the model every run',
     'level_note': 'Trusted: Coq kernel, hand-written model, differential harness. Signature verification, address lookups and the '
                   'consensus computation are oracles / inputs. No axioms.',
-    'modelled': 'initializeRMNController (as an input code), verifyQuery, shouldSkipRMNVerification, NewECDSASigsFromPB, '
+    'modelled': 'Processor.Query (controller answer as input), getObservation (observer answers as inputs; the merkle roots through the C02 model of ObserveMerkleRoots on the previous outcome\'s ranges), the retry rule of ValidateObservation, initializeRMNController (as an input code), verifyQuery, shouldSkipRMNVerification, NewECDSASigsFromPB, '
                 'NewLaneUpdatesFromPB, buildReport, the merkle-root part of Plugin.Reports, the RMN gate of ShouldAcceptAttestedReport '
-                '(curse check and decode errors are inputs, see C16/C15). With RMN disabled a leader-supplied bundle still filters '
+                '(curse check and decode errors are inputs, see C16/C15). A commit.Plugin constructed by NewPlugin with RMN enabled is not driven: NewPlugin builds the real rmn.Controller from a PeerClient, the scripted controller can only be injected at the processor (NewProcessor), which is what the chain part does. With RMN disabled a leader-supplied bundle still filters '
                 'roots in buildReport (observation F10b; not part of the property text)',
 }
